@@ -569,8 +569,15 @@ class _Walker:
             env[t.id] = av
         elif isinstance(t, (ast.Tuple, ast.List)):
             if isinstance(av, tuple) and len(av) == len(t.elts) and not any(isinstance(x, ast.Starred) for x in t.elts):
-                for x, a in zip(t.elts, av):
-                    self.bind(x, a, env, st, None)
+                from_out = isinstance(value_node, ast.Name) and value_node.id == 'out' and 'out' in self.param_roots \
+                    and self.param_roots['out'] <= flat(av)
+                for i, (x, a) in enumerate(zip(t.elts, av)):
+                    self.bind(x, (flat(a) | frozenset([('p', 'out#%d' % i)])) if from_out else a, env, st, None)
+            elif isinstance(value_node, ast.Name) and value_node.id == 'out' and 'out' in self.param_roots \
+                    and self.param_roots['out'] <= flat(av) and not any(isinstance(x, ast.Starred) for x in t.elts):
+                # `xbar, ybar = out`: the components of the output tuple are told apart (pseudo roots out#0, out#1)
+                for i, x in enumerate(t.elts):
+                    self.bind(x, flat(av) | frozenset([('p', 'out#%d' % i)]), env, st, None)
             else:
                 for x in t.elts:
                     self.bind(x.value if isinstance(x, ast.Starred) else x, flat(av), env, st, None)
@@ -637,6 +644,9 @@ class _Walker:
         if isinstance(n, ast.Subscript):
             base = self.ev(n.value, env)
             self.ev(n.slice, env)
+            if isinstance(n.value, ast.Name) and n.value.id == 'out' and 'out' in self.param_roots and not isinstance(base, tuple) and self.param_roots['out'] <= base \
+                    and isinstance(n.slice, ast.Constant) and isinstance(n.slice.value, int) and n.slice.value >= 0:
+                return base | frozenset([('p', 'out#%d' % n.slice.value)])      # out[i]: component i of the output tuple
             if isinstance(base, tuple):
                 if isinstance(n.slice, ast.Constant) and isinstance(n.slice.value, int) \
                         and -len(base) <= n.slice.value < len(base):
@@ -806,8 +816,22 @@ class _Walker:
                 mapping[k] = a
         if sm is None:
             return frozenset([('fresh', c.lineno)])
+        comp_keys = [p for p in sm.writes if p.startswith('out#')]
+        out_av = mapping.get('out')
         for p, ws in sm.writes.items():
-            roots = flat(mapping.get(p, EMPTY))
+            if p.startswith('out#'):
+                # a component of the callee's output tuple: the matching element of a tuple passed as `out`
+                i = int(p[4:])
+                if isinstance(out_av, tuple):
+                    roots = flat(out_av[i]) if i < len(out_av) else EMPTY
+                elif out_av is not None and 'out' in self.param_roots and out_av == self.param_roots['out']:
+                    roots = out_av | frozenset([('p', p)])      # the caller's own output tuple handed on as a whole
+                else:
+                    roots = EMPTY
+            elif p == 'out' and comp_keys and isinstance(out_av, tuple):
+                roots = frozenset(r for r in flat(out_av) if not (r[0] == 'p' and '#' in r[1]))
+            else:
+                roots = flat(mapping.get(p, EMPTY))
             if roots:
                 for mode, wit in ws.items():
                     chain = '%s -> %s' % (self._w(c), wit)
